@@ -245,6 +245,103 @@ def r2_order(rep, facts):
     rep.check(R, 'visit_table|key = value', ok, 'key path, keyval_sep, value', 'key/value lines are not emitted as key, separator, value', loc)
 
 
+def _lets(body):
+    """local name -> init expression for `let name = init` bindings of a body"""
+    out = {}
+    for n in walk(body):
+        if n.get('k') == 'let' and (n.get('pat') or {}).get('k') == 'p_bind' and 'init' in n:
+            out[n['pat']['name']] = n['init']
+    return out
+
+
+def _origin(e, lets, depth=0):
+    """(root local name or None, [method names from the root outwards]) of a receiver chain, following let-bound locals"""
+    e = peel(e)
+    k = e.get('k')
+    if depth > 12:
+        return None, []
+    if k == 'mcall':
+        r, ms = _origin(e['recv'], lets, depth + 1)
+        return r, ms + [e.get('name')]
+    if k in ('addrof', 'unary', 'deref'):
+        return _origin(e.get('a') or e.get('e') or {}, lets, depth + 1)
+    if k == 'field':
+        r, ms = _origin(e['base'], lets, depth + 1)
+        return r, ms + ['.' + str(e.get('name'))]
+    if k == 'path' and e.get('res') == 'Local':
+        nm = e.get('path')
+        if nm in lets:
+            return _origin(lets[nm], lets, depth + 1)
+        return nm, []
+    return None, []
+
+
+def r2b_key_path_decor(rep, facts):
+    R = rep.rule('C03/R2b', 'placement of key-path whitespace agrees between reader and writers: the parser stores the text around a whole '
+                 'dotted key on the leaf decor of the LAST segment and the text around the dots on each segment\'s dotted decor; both key-path '
+                 'printers take the leaf decor from `<path>.last()` and the dotted decor from the segment being printed', floor=5)
+    # reader
+    b = facts.body(P + 'key::key')
+    lets = _lets(b['body'])
+    ok = False
+    how = 'no `*<key>.leaf_decor_mut() = ..` assignment'
+    for n in walk(b['body']):
+        if n.get('k') == 'assign':
+            l = peel(n['lhs'])
+            tgt = l.get('a') or l.get('e') or l
+            tgt = peel(tgt) if isinstance(tgt, dict) else l
+            for m in walk(n['lhs']):
+                if m.get('k') == 'mcall' and m.get('name') == 'leaf_decor_mut':
+                    root, ms = _origin(m['recv'], lets)
+                    how = f'leaf decor stored on {root}.{".".join(x for x in ms if x)}'
+                    ok = 'last_mut' in ms or 'last' in ms
+    rep.check(R, 'key::key|leaf-decor-on-last', ok, how, f'the parser stores the whitespace around a dotted key elsewhere than on its last segment ({how}); the printers read it from `.last()`', facts.loc(b))
+    srcs = []
+    for n in walk(b['body']):
+        if n.get('k') == 'mcall' and n.get('name') in ('set_prefix', 'set_suffix'):
+            root, ms = _origin(n['recv'], lets)
+            a0 = peel(n['args'][0]) if n.get('args') else {}
+            if a0.get('k') == 'path' and a0.get('res') == 'Local':
+                # leaf_decor.set_prefix(prefix): where does `prefix` come from
+                srcs.append((n['name'], a0.get('path')))
+    # prefix comes from the first segment, suffix from the last
+    okp = oks = False
+    for n in walk(b['body']):
+        if n.get('k') == 'if' and peel(n['cond']).get('k') == 'letexpr':
+            le = peel(n['cond'])
+            root, ms = _origin(le['init'], lets)
+            sets = [x.get('name') for x in walk(n['then']) if x.get('k') == 'mcall' and x.get('name') in ('set_prefix', 'set_suffix')]
+            if 'prefix' in ms and 'first_mut' in ms and 'set_prefix' in sets:
+                okp = True
+            if 'suffix' in ms and ('last_mut' in ms or 'last' in ms) and 'set_suffix' in sets:
+                oks = True
+    rep.check(R, 'key::key|prefix-from-first', okp, 'leaf prefix = text before the first segment', 'the leaf prefix is no longer taken from the first segment of the dotted key', facts.loc(b))
+    rep.check(R, 'key::key|suffix-from-last', oks, 'leaf suffix = text after the last segment', 'the leaf suffix is no longer taken from the last segment of the dotted key', facts.loc(b))
+    # writers
+    for d in ('toml_edit::encode::encode_key_path', 'toml_edit::encode::encode_key_path_ref'):
+        b = facts.body(d)
+        lets = _lets(b['body'])
+        params = set(param_names(b))
+        leaf = dotted = 0
+        bad = []
+        for n in walk(b['body']):
+            if n.get('k') == 'mcall' and n.get('name') in ('prefix_encode', 'suffix_encode'):
+                root, ms = _origin(n['recv'], lets)
+                if 'leaf_decor' in ms:
+                    leaf += 1
+                    if not (root in params and 'last' in ms[:ms.index('leaf_decor')]):
+                        bad.append(f'{n["name"]} at line {n.get("l")} takes the leaf decor from `{root}`{"." if ms else ""}{".".join(ms)} instead of `<path>.last()`')
+                elif 'dotted_decor' in ms:
+                    dotted += 1
+                    if root in params or 'last' in ms or 'first' in ms:
+                        bad.append(f'{n["name"]} at line {n.get("l")} takes the dotted decor from `{root}.{".".join(ms)}` instead of the segment being printed')
+                else:
+                    bad.append(f'{n["name"]} at line {n.get("l")} is applied to neither leaf nor dotted decor')
+        rep.check(R, f'{last_seg(d)}|decor-sources', not bad and leaf == 2 and dotted == 2, f'leaf decor from .last() ({leaf} uses), dotted decor from the segment ({dotted} uses)',
+                  f'`{last_seg(d)}`: ' + ('; '.join(bad) if bad else f'{leaf} leaf / {dotted} dotted decor writers instead of 2 / 2') +
+                  ' — whitespace of headers / dotted keys is printed from a different key than the parser stored it on', facts.loc(b))
+
+
 def r3_header_order(rep, facts):
     R = rep.rule('C03/R3', 'header order: both header starters bump the position counter before recording it and write the same '
                  'current_table fields; the printer sorts stably and visits a table before its children', floor=6)
@@ -367,6 +464,7 @@ def rules(rep, facts):
     r1b_despan_dispatch(rep, facts, cg)
     r1c_key_format(rep, facts)
     r2_order(rep, facts)
+    r2b_key_path_decor(rep, facts)
     r3_header_order(rep, facts)
     r4_cr(rep, facts)
 
